@@ -14,7 +14,9 @@ Oracles (see DESIGN.md 2/C03):
                  of hidden arguments (hidden positional count when hide_args, hidden keyword set when
                  hide_kwargs), the named arguments being passed in any case
 """
+import inspect
 import itertools
+import warnings
 
 from vlib import cpbind, realfn, universe
 from vlib.framework import Stats, hyp_search
@@ -111,6 +113,21 @@ def check_plain(spec, sig, n, names_set, perms, shapes, stats, enum):
         results.append((perm, r))
     case = lambda perm: {'op': 'mask', 'spec': list(map(list, spec)), 'n': n, 'names': list(perm), 'flags': {}}
     desc = lambda perm: 'mask((%s), %d%s)' % (universe.spec_text(spec), n, ''.join(', %r' % x for x in perm))
+    # what mask does with the parameters does not depend on the provenance the signature carries: one built from its parameters
+    # alone (empty map), one whose map lacks entries, a plain inspect.Signature (deprecated, still accepted)
+    p0, r0 = results[0]
+    for label, variant in (('an UpgradedSignature built from the parameters alone', lambda: sig.replace(sources={})),
+                           ('provenance without the first entry', lambda: sig.replace(sources=dict(list(sig.sources.items())[1:]))),
+                           ('a plain inspect.Signature', lambda: inspect.Signature(
+                               [inspect.Parameter(q.name, q.kind, default=q.default, annotation=q.annotation) for q in sig.parameters.values()]))):
+        stats.case()
+        with warnings.catch_warnings():
+            warnings.simplefilter('ignore')
+            rv = do_mask(variant(), n, p0)
+        if (rv is None) != (r0 is None) or (rv is not None and canon_params(rv) != canon_params(r0)):
+            stats.fail('C03/hand-built-provenance', dict(case(p0), variant=label), '%s -> %s, on %s -> %s' % (
+                desc(p0), r0 if r0 is not None else 'ValueError', label, rv if rv is not None else 'raises'))
+            break
     # (c) order independence
     fv = [(perm, None if r is None else full_view(r)) for perm, r in results]
     if len(set(v for _, v in fv)) > 1:
